@@ -40,6 +40,10 @@ class DictChunkStore(ChunkStore):
         chunk_name, shape = self.chunk_metadata(array_name, slices, dtype=dtype)
         with self._standard_errors(chunk_name):
             array = self.arrays[array_name]
+            # A chunk that lies entirely beyond the end of the array is not in the
+            # store (NumPy slicing would silently produce an empty array instead)
+            if any(s.start >= n and s.stop > s.start for s, n in zip(slices, array.shape)):
+                raise IndexError(f'Chunk {chunk_name!r} lies outside array of shape {array.shape}')
             # Ensure that chunk is array (otherwise 0-dim array becomes number)
             chunk = array[slices] if slices != () else array
         if chunk.shape != shape or chunk.dtype != dtype:
